@@ -32,6 +32,7 @@ NOT_COVERED = ["raw_command (sends caller bytes by design)", "HashClient multi-k
                "the empty prefixed key: recorded known finding, re-confirmed by witness replay each run"]
 BUDGET = {"quick": 30, "thorough": 120}
 FILTER_BY_PROPERTY = True
+REPLAY_OUT_OF_REACH = True
 DEPENDS = ["C20"]      # check_key_helper's contract (used by every command builder)
 
 
@@ -48,6 +49,7 @@ def build(E, tier):
         cm.verify_public_store(E)
         cm.verify_public_fetch(E)
         cm.verify_public_fetch_many(E)
+        cm.verify_set_many(E)
     cm.verify_delete_many(E)
 
 
@@ -149,6 +151,10 @@ for prefix in (b"", b"p:", b"q" * 10):
                   ops.append(("set", lambda c, v=v, nr=nr: c.set(key, v, expire=5, noreply=nr, flags=3), lambda v=v, nr=nr: [(b"set", k, 3, 5, v if isinstance(v, bytes) else str(v).encode(encoding), None, nr)]))
           ops.append(("set-bool-expire", lambda c: c.set(key, b"v", expire=True, noreply=True), lambda: [(b"set", k, 0, 1, b"v", None, True)]))
           ops.append(("cas", lambda c: c.cas(key, b"v", b"12", expire=0, noreply=True), lambda: [(b"cas", k, 0, 0, b"v", b"12", True)]))
+          ops.append(("cas-str-token", lambda c: c.cas(key, b"v", "34", expire=0, noreply=False), lambda: [(b"cas", k, 0, 0, b"v", b"34", False)]))
+          ops.append(("cas-int-token", lambda c: c.cas(key, b"v", 2**64 - 1, expire=0, noreply=True), lambda: [(b"cas", k, 0, 0, b"v", b"18446744073709551615", True)]))
+          for badcas in ("12\n", b"12\n", "12 ", "1 2", b"12\r\n", "", b"-1", "12\x00", "\n12", "1.5", "١٢"):
+              ops.append(("cas-illegal-token %r" % (badcas,), lambda c, badcas=badcas: c.cas(key, b"v", badcas, noreply=True), None))
           ops.append(("delete", lambda c: c.delete(key, noreply=False), lambda: [(b"delete", k, False)]))
           ops.append(("incr", lambda c: c.incr(key, 2**64 - 1, noreply=True), lambda: [(b"incr", k, 2**64 - 1, True)]))
           ops.append(("touch", lambda c: c.touch(key, -1, noreply=True), lambda: [(b"touch", k, -1, True)]))
@@ -222,6 +228,27 @@ def replay(ob, res):
         if obs.get("malformed"):
             return {"reproduced": True, "call": "Client.%s(%s) with %d keys" % (meth, "iter([...])" if ik == "one-shot" else "[...]", nk),
                     "input": {"n_keys": nk, "collection": ik}, "observed": obs}
+        return {"reproduced": False, "searched": obs}
+    if ob.meta.get("gat_none"):
+        meth = ob.meta["gat_none"]
+        code = r'''
+from fakesock import FakeModule
+from pymemcache.client.base import Client
+from pymemcache.exceptions import MemcacheIllegalInputError
+m = FakeModule([b"ERROR\r\n"])
+c = Client(("h", 1), socket_module=m)
+try:
+    getattr(c, payload["meth"])("k", expire=None); raised = None
+except MemcacheIllegalInputError as e:
+    raised = "input"
+except Exception as e:
+    raised = repr(e)
+out(sent=m.sent, raised=raised)
+'''
+        obs = rp.run_real(code, {"meth": meth})
+        sent = (obs.get("sent") or {}).get("bytes", "")
+        if sent or obs.get("raised") != "input":
+            return {"reproduced": True, "call": "Client.%s('k', expire=None)" % meth, "input": {"expire": None}, "observed": obs}
         return {"reproduced": False, "searched": obs}
     if "r" not in _rc:
         _rc["r"] = rp.run_real(REPLAY, {}, timeout=600)
